@@ -1,14 +1,52 @@
 (* C20 — async lru_cache: right value, single flight, bounded retention.
-   This file contains only statements closed by `exact` and their Print Assumptions.
-   `run cf ops` is the state of the Lru machine after the op list `ops` (any callers, any schedule, any oracle
-   values, calls inside cancelled scopes, cache_clear() at any time, consecutive event loops) under configuration
-   cf = (maxsize, ttl, always_checkpoint, typed, number of callers); `dict s` = entries of the running loop,
-   `dicts s g` = the dict of generation g (a dict discarded by cache_clear() lives on for the calls that hold it).
-   The strong clauses are stated under boolean hypotheses on the op list that exclude the known findings:
-     no_inflight_eviction  (F3,  predicate evicts_inflight)        no_waited_eviction   (F8,  evicts_waited)
-     no_other_loop         (F30, stale_count_other_loop)           no_uncounted_eviction (F31, uncounted_placeholder)
-     maxsize_pos           (F32, maxsize0_no_single_flight)        no_dead_placeholder  (F41, dead_placeholder_counted)
-   and the `refuted` theorems show by concrete histories that none of them can be dropped. *)
+   This file contains only statements closed by `exact` (one is transported by a rewrite) and their Print Assumptions.
+   `run cf ops` is the state of the Lru machine after the op list `ops` under configuration cf = (maxsize, ttl,
+   always_checkpoint, typed, number of callers); `dict s` = entries of the running loop, `dicts s g` = the dict of
+   generation g (a dict discarded by cache_clear() lives on for the calls that hold it).
+
+   Boolean predicates on the op list (sticky ghost flags of the machine) and what they exclude:
+     no_inflight_eviction  = evicts_inflight = false        (F3)  no miss ever pops a placeholder whose lock some caller
+                                                                   holds or waits for
+     no_waited_eviction    = evicts_waited = false          (F8)  no completed entry is popped / expired while a caller of
+                                                                   its key (same dict) is suspended in lock.acquire()
+     no_other_loop         = stale_count_other_loop = false (F30) no new loop while currsize <> 0 and NO cache_clear() while
+                                                                   any call is in progress
+     no_uncounted_eviction = uncounted_placeholder = false  (F31) no call is aborted at the lock entry while its key's
+                                                                   placeholder is uncounted (i.e. practically: no miss issued
+                                                                   inside a cancelled scope, no native cancel in the
+                                                                   always_checkpoint entry checkpoint), and no miss pops an
+                                                                   uncounted placeholder
+     no_dead_placeholder   = dead_placeholder_counted = false (F41) no execution of the wrapped function through the cache
+                                                                   ever fails or is cancelled while its placeholder is
+                                                                   still in the dict
+     maxsize0_no_single_flight                              (F32) maxsize = 0 and two calls of one key in progress at once
+   Hence "cache_clear() at any time / consecutive loops / cancelled scopes" is covered by the UNCONDITIONAL theorems only.
+
+   Hypotheses carried by each theorem:
+     none:  C20_key_construction, C20_keys_identify_equal_calls, C20_value_faithful, C20_produced_only_by_wrapped,
+            C20_raises_own, C20_reuse_first_result (needs the entry to be a value at that moment),
+            C20_distinct_keys_independent, C20_no_lock_error, C20_paths_exclusive, C20_order,
+            C20_evicts_oldest_use / C20_stamp_is_last_use (for steps other than Clear / NewLoop), C20_use_refreshes,
+            C20_expired_recomputed, C20_reread_serves_fresh, C20_invariant
+     no_inflight_eviction, no_waited_eviction:                      C20_no_internal_error, C20_running_is_counted
+     no_inflight_eviction, no_waited_eviction, no_other_loop:       C20_single_flight (cached path; maxsize = 0 has no
+                                                                    single flight at all: C20_refuted_maxsize0_double_flight)
+     no_inflight_eviction, no_waited_eviction, no_uncounted_eviction: C20_bounded
+     all five (without maxsize0_...):                               C20_count_exact, C20_evicts_only_when_full
+
+   Witnesses.  Each finding pattern is exhibited by a vm_compute witness on which ONLY its own predicate is true (the
+   whole flag set is stated) and which violates one of the conditional clauses:
+     F3  C20_refuted_keyerror (no_internal_error), C20_refuted_exceeds (bounded), C20_refuted_double_flight (single_flight)
+     F8  C20_refuted_keyerror_waited (no_internal_error), C20_refuted_double_flight_waited / _ttl (single_flight)
+     F30 C20_refuted_clear_double_flight (single_flight), C20_refuted_other_loop_count (count_exact)
+     F31 C20_refuted_uncounted_exceeds (bounded)      F32 C20_refuted_maxsize0_double_flight
+     F41 C20_refuted_dead_placeholder (count_exact, evicts_only_when_full)
+   NOT every hypothesis of every theorem has a necessity witness: none is given for no_waited_eviction in C20_bounded /
+   C20_count_exact / C20_evicts_only_when_full (it is what the proof of the store step uses; no history is known that
+   breaks the bound with evicts_waited alone), for the two hypotheses of C20_running_is_counted, and for
+   no_inflight / no_uncounted / no_other_loop in C20_evicts_only_when_full.  C20_refuted_other_loop and
+   C20_refuted_clear_in_flight show the CONSEQUENCES of F30 (own placeholder popped, second flight); those histories also
+   contain the F3 pattern. *)
 From AV Require Import Base Lru LruKey LruLockFacts LruDict LruProofs LruInv LruCount LruStep LruThms LruWitness.
 From AV Require Lock LockProofs.
 From Coq Require Import Sorting.Sorted.
@@ -55,15 +93,20 @@ Theorem C20_raises_own : forall cf ops o e,
 Proof. exact lru_raises_own. Qed.
 Print Assumptions C20_raises_own.
 
-(* ---- single flight, at full strength: any two callers executing the wrapped function for the same key (through
-        the cache or through the maxsize = 0 path, in whatever dict) are the same caller ---- *)
-Theorem C20_single_flight : forall cf ops c1 c2 k,
-  maxsize_pos cf -> no_inflight_eviction cf ops -> no_waited_eviction cf ops -> no_other_loop cf ops ->
-  ((exists l p b g, phase (run cf ops) c1 = CInWrapped k l p b g) \/ (exists p b, phase (run cf ops) c1 = CBypass k p b)) ->
-  ((exists l p b g, phase (run cf ops) c2 = CInWrapped k l p b g) \/ (exists p b, phase (run cf ops) c2 = CBypass k p b)) ->
-  c1 = c2.
+(* ---- single flight: any two callers executing the wrapped function for the same key through the cache (in whatever
+        dict) are the same caller; the cached path and the lock-free maxsize = 0 path exclude each other ---- *)
+Theorem C20_single_flight : forall cf ops c1 c2 k l1 p1 b1 g1 l2 p2 b2 g2,
+  no_inflight_eviction cf ops -> no_waited_eviction cf ops -> no_other_loop cf ops ->
+  phase (run cf ops) c1 = CInWrapped k l1 p1 b1 g1 -> phase (run cf ops) c2 = CInWrapped k l2 p2 b2 g2 -> c1 = c2.
 Proof. exact lru_single_flight. Qed.
 Print Assumptions C20_single_flight.
+
+Theorem C20_paths_exclusive : forall cf ops c,
+  (forall k p b, phase (run cf ops) c = CBypass k p b -> is_zero_max cf = true) /\
+  (forall k l p b g, phase (run cf ops) c = CInWrapped k l p b g -> is_zero_max cf = false) /\
+  (forall k l t0 g, phase (run cf ops) c = CLockWait k l t0 g -> is_zero_max cf = false).
+Proof. exact lru_paths_exclusive. Qed.
+Print Assumptions C20_paths_exclusive.
 
 Theorem C20_reuse_first_result : forall cf ops c k l t0 g v e,
   phase (run cf ops) c = CLockWait k l t0 g ->
@@ -190,82 +233,94 @@ Theorem C20_invariant : forall cf ops, Inv1 cf (run cf ops) /\ Inv2 cf (run cf o
 Proof. exact reachable_inv. Qed.
 Print Assumptions C20_invariant.
 
-(* ---- refutations: F3 (a miss evicts a placeholder whose lock is held or waited on) ---- *)
+(* ---- witnesses.  only_X = the flag set in which X is the only true flag ---- *)
+(* F3 *)
 Theorem C20_refuted_keyerror :
-  exists cf ops o, evicts_inflight cf (ops ++ [o]) = true /\ snd (step cf (run cf ops) o) = RKeyError.
+  exists cf ops o, fl (run cf (ops ++ [o])) = mkfl true false false false false false /\
+    snd (step cf (run cf ops) o) = RKeyError.
 Proof. exact lru_refuted_keyerror. Qed.
 Print Assumptions C20_refuted_keyerror.
 
 Theorem C20_refuted_exceeds :
-  exists cf ops m, maxsize cf = Some m /\ evicts_inflight cf ops = true /\
+  exists cf ops m, maxsize cf = Some m /\ fl (run cf ops) = mkfl true false false false false false /\
     m < length (filter (fun x => negb (is_place (se x))) (dict (run cf ops))).
 Proof. exact lru_refuted_exceeds. Qed.
 Print Assumptions C20_refuted_exceeds.
 
 Theorem C20_refuted_double_flight :
-  exists cf ops c1 c2 k, maxsize_pos cf /\ evicts_inflight cf ops = true /\ c1 <> c2 /\
-    executing (run cf ops) c1 k /\ executing (run cf ops) c2 k.
+  exists cf ops c1 c2 k l1 l2 g, fl (run cf ops) = mkfl true false false false false false /\ c1 <> c2 /\
+    phase (run cf ops) c1 = CInWrapped k l1 None false g /\ phase (run cf ops) c2 = CInWrapped k l2 None false g.
 Proof. exact lru_refuted_double_flight. Qed.
 Print Assumptions C20_refuted_double_flight.
 
-(* ---- F8 (a completed entry is evicted / expires while a caller is queued on its lock) ---- *)
+(* F8 *)
 Theorem C20_refuted_keyerror_waited :
-  exists cf ops o, evicts_inflight cf (ops ++ [o]) = false /\ evicts_waited cf (ops ++ [o]) = true /\
+  exists cf ops o, fl (run cf (ops ++ [o])) = mkfl false true false false false false /\
     snd (step cf (run cf ops) o) = RKeyError.
 Proof. exact lru_refuted_keyerror_waited. Qed.
 Print Assumptions C20_refuted_keyerror_waited.
 
 Theorem C20_refuted_double_flight_waited :
-  exists cf ops c1 c2 k, maxsize_pos cf /\ evicts_inflight cf ops = false /\ evicts_waited cf ops = true /\
-    stale_count_other_loop cf ops = false /\ c1 <> c2 /\
-    executing (run cf ops) c1 k /\ executing (run cf ops) c2 k.
+  exists cf ops c1 c2 k l1 l2 g, fl (run cf ops) = mkfl false true false false false false /\ c1 <> c2 /\
+    phase (run cf ops) c1 = CInWrapped k l1 None false g /\ phase (run cf ops) c2 = CInWrapped k l2 None false g.
 Proof. exact lru_refuted_double_flight_waited. Qed.
 Print Assumptions C20_refuted_double_flight_waited.
 
 Theorem C20_refuted_double_flight_ttl :
-  exists cf ops c1 c2 k, maxsize cf = None /\ evicts_inflight cf ops = false /\ evicts_waited cf ops = true /\
-    c1 <> c2 /\ executing (run cf ops) c1 k /\ executing (run cf ops) c2 k.
+  exists cf ops c1 c2 k l1 l2 g, maxsize cf = None /\ fl (run cf ops) = mkfl false true false false false false /\
+    c1 <> c2 /\
+    phase (run cf ops) c1 = CInWrapped k l1 None false g /\ phase (run cf ops) c2 = CInWrapped k l2 None false g.
 Proof. exact lru_refuted_double_flight_ttl. Qed.
 Print Assumptions C20_refuted_double_flight_ttl.
 
-(* ---- F30 (the wrapper-level count outlives the loop's dict / a cache_clear() racing a flight) ---- *)
+(* F30 *)
+Theorem C20_refuted_clear_double_flight :
+  exists cf ops c1 c2 k l1 l2 g1 g2, fl (run cf ops) = mkfl false false false false true false /\ c1 <> c2 /\
+    phase (run cf ops) c1 = CInWrapped k l1 None false g1 /\ phase (run cf ops) c2 = CInWrapped k l2 None false g2.
+Proof. exact lru_refuted_clear_double_flight. Qed.
+Print Assumptions C20_refuted_clear_double_flight.
+
+Theorem C20_refuted_other_loop_count :
+  exists cf ops, fl (run cf ops) = mkfl false false false false true false /\
+    dict (run cf ops) = [] /\ currsize (run cf ops) = 1%Z.
+Proof. exact lru_refuted_other_loop_count. Qed.
+Print Assumptions C20_refuted_other_loop_count.
+
 Theorem C20_refuted_other_loop :
-  exists cf ops c1 c2 k, maxsize_pos cf /\ stale_count_other_loop cf ops = true /\ evicts_waited cf ops = false /\
+  exists cf ops c1 c2 k, stale_count_other_loop cf ops = true /\ evicts_waited cf ops = false /\
     dead_placeholder_counted cf ops = false /\ uncounted_placeholder cf ops = false /\ c1 <> c2 /\
     executing (run cf ops) c1 k /\ executing (run cf ops) c2 k /\
+    fl (run cf (firstn 4 ops)) = mkfl false false false false true false /\
     dict (run cf (firstn 4 ops)) = [] /\ currsize (run cf (firstn 4 ops)) = 1%Z.
 Proof. exact lru_refuted_other_loop. Qed.
 Print Assumptions C20_refuted_other_loop.
 
 Theorem C20_refuted_clear_in_flight :
-  exists cf ops c1 c2 k, maxsize_pos cf /\ stale_count_other_loop cf ops = true /\ evicts_waited cf ops = false /\
+  exists cf ops c1 c2 k, stale_count_other_loop cf ops = true /\ evicts_waited cf ops = false /\
     c1 <> c2 /\ executing (run cf ops) c1 k /\ executing (run cf ops) c2 k /\
     dict (run cf (firstn 8 ops)) = [] /\ currsize (run cf (firstn 8 ops)) = 1%Z.
 Proof. exact lru_refuted_clear_in_flight. Qed.
 Print Assumptions C20_refuted_clear_in_flight.
 
-(* ---- F31 (a call aborted at the lock entry leaves an uncounted placeholder) ---- *)
+(* F31 *)
 Theorem C20_refuted_uncounted_exceeds :
-  exists cf ops m, maxsize cf = Some m /\ evicts_inflight cf ops = false /\ evicts_waited cf ops = false /\
-    stale_count_other_loop cf ops = false /\ uncounted_placeholder cf ops = true /\
+  exists cf ops m, maxsize cf = Some m /\ fl (run cf ops) = mkfl false false true false false false /\
     m < length (filter (fun x => negb (is_place (se x))) (dict (run cf ops))) /\ currsize (run cf ops) = 1%Z.
 Proof. exact lru_refuted_uncounted_exceeds. Qed.
 Print Assumptions C20_refuted_uncounted_exceeds.
 
-(* ---- F32 (maxsize = 0: no lock, no single flight) ---- *)
+(* F32 *)
 Theorem C20_refuted_maxsize0_double_flight :
-  exists cf ops c1 c2 k, is_zero_max cf = true /\ maxsize0_no_single_flight cf ops = true /\
-    evicts_inflight cf ops = false /\ evicts_waited cf ops = false /\ stale_count_other_loop cf ops = false /\
-    c1 <> c2 /\ executing (run cf ops) c1 k /\ executing (run cf ops) c2 k.
+  exists cf ops c1 c2 k, is_zero_max cf = true /\ fl (run cf ops) = mkfl false false false false false true /\
+    c1 <> c2 /\
+    phase (run cf ops) c1 = CBypass k None false /\ phase (run cf ops) c2 = CBypass k None false.
 Proof. exact lru_refuted_maxsize0_double_flight. Qed.
 Print Assumptions C20_refuted_maxsize0_double_flight.
 
-(* ---- F41 (a failed computation leaves its placeholder counted: eviction although the cache is not full) ---- *)
+(* F41 *)
 Theorem C20_refuted_dead_placeholder :
-  exists cf ops o key m, maxsize cf = Some m /\
-    evicts_inflight cf (ops ++ [o]) = false /\ evicts_waited cf (ops ++ [o]) = false /\
-    uncounted_placeholder cf (ops ++ [o]) = false /\ stale_count_other_loop cf (ops ++ [o]) = false /\
-    dead_placeholder_counted cf (ops ++ [o]) = true /\ o <> Clear /\ o <> NewLoop /\
+  exists cf ops o key m, maxsize cf = Some m /\ fl (run cf (ops ++ [o])) = mkfl false false false true false false /\
+    o <> Clear /\ o <> NewLoop /\
     In key (map sk (dict (run cf ops))) /\ ~ In key (map sk (dict (run cf (ops ++ [o])))) /\
     length (filter (fun x => negb (is_place (se x))) (dict (run cf (ops ++ [o])))) +
     length (filter (fun x => match se x with EPlace _ true => true | _ => false end) (dict (run cf (ops ++ [o])))) < m /\
